@@ -4023,27 +4023,30 @@ impl LineBuf {
 				}
 			}
 			Verb::JoinLines => {
-				let start = self.start_of_line();
-				let Some((_,mut end)) = self.nth_next_line(1) else {
+				// The line break and the blanks that lead the next line become one space; none when either
+				// line is empty, when this line already ends with a blank or the next one starts with ')'
+				let (line_start,line_end) = self.this_line();
+				if line_end == 0 || line_end >= self.cursor.max || self.grapheme_at(line_end - 1) != Some("\n") {
+					// no line below
 					return Ok(())
-				};
-				end = end.saturating_sub(1); // exclude the last newline
-				let mut last_was_whitespace = false;
-				for i in start..end {
-					let Some(gr) = self.grapheme_at(i) else {
-						continue
-					};
-					if gr == "\n" {
-						if last_was_whitespace {
-							self.remove(i);
-						} else {
-							self.force_replace_at(i, " ");
-						}
-						last_was_whitespace = false;
-						continue
-					}
-					last_was_whitespace = is_whitespace(gr);
 				}
+				let line_break = line_end - 1;
+				let is_blank = |gr: Option<&str>| gr.is_some_and(|gr| gr == " " || gr == "\t");
+				let mut next_start = line_end;
+				while is_blank(self.grapheme_at(next_start)) {
+					next_start += 1;
+				}
+				let next_is_empty = self.grapheme_at(next_start).is_none_or(|gr| gr == "\n");
+				let this_is_empty = line_break == line_start;
+				let ends_with_blank = !this_is_empty && is_blank(self.grapheme_at(line_break - 1));
+				let closes = self.grapheme_at(next_start) == Some(")");
+				self.drain(line_break, next_start);
+				self.update_graphemes();
+				if !next_is_empty && !this_is_empty && !ends_with_blank && !closes {
+					self.insert_at(line_break, ' ');
+				}
+				// the cursor goes to where the lines were joined
+				self.cursor.set(line_break);
 			}
 			Verb::InsertChar(ch) => {
 				self.insert_at_cursor(ch);
@@ -4441,7 +4444,14 @@ impl LineBuf {
 		#[cfg(vicut_verif)]
 		crate::verif::trace_motion(self, &verif_cmd, &motion_eval);
 		if let Some(verb) = verb.clone() {
-			self.exec_verb(verb.1, motion_eval, register)?;
+			if matches!(verb.1, Verb::JoinLines) {
+				// '[N]J' joins N lines, that is N - 1 line breaks (at least one)
+				for _ in 0..verb.0.saturating_sub(1).max(1) {
+					self.exec_verb(Verb::JoinLines, MotionKind::Null, register)?;
+				}
+			} else {
+				self.exec_verb(verb.1, motion_eval, register)?;
+			}
 		} else {
 			self.apply_motion(motion_eval);
 		}
